@@ -56,6 +56,12 @@ def gen_directed(seed, n, first_id):
         p["outs"] = outs
         p["directed"] = 1
         ps.append(p)
+    for i in range(max(10, n // 10)):       # nested branches with a definition in the innermost arm only
+        p = proggen.nested_branch_program(rng, first_id + n + i)
+        p["fn"] = {"name": "f", "in": [], "out": []}
+        p["outs"] = []
+        p["directed"] = 1
+        ps.append(p)
     return ps
 
 
